@@ -43,6 +43,14 @@ func (m *Machine) global(g *ssa.Global) *Obj {
 	}
 	et := g.Type().(*types.Pointer).Elem()
 	var init Value
+	if d, ok := m.dump[g.Name()]; ok && m.entryFn != nil && g.Pkg == m.entryFn.Pkg {
+		init = m.valueFromDump(et, d)
+		o := m.newObj(init, g.String())
+		o.fresh = false
+		m.globalInit[o.id] = init
+		m.globals[g] = o
+		return o
+	}
 	if pt, ok := et.Underlying().(*types.Pointer); ok {
 		// lazily materialise the pointee of an init()-assigned pointer global
 		po := m.newObj(m.zero(pt.Elem()), g.String())
@@ -412,6 +420,23 @@ func (m *Machine) intrinsic(fn *ssa.Function, args []Value) (Value, bool) {
 	if r, ok := m.fieldSummary(fn, args); ok {
 		return r, true
 	}
+	if r, ok := m.bigStub(fn, args); ok {
+		return r, true
+	}
+	if fn.String() == "math/big.NewInt" {
+		iv := args[0].(VInt)
+		var b BigV
+		if k, ok := concreteBig(iv); ok {
+			v := new(big.Int).Set(k)
+			if !m.intMode {
+				v = iv.bv.signedVal()
+			}
+			b = BigV{c: v}
+		} else {
+			b = BigV{lin: iv.lin}
+		}
+		return Ptr{obj: m.newObj(b, "big.NewInt")}, true
+	}
 	name := fn.Name()
 	full := fn.String()
 	switch {
@@ -603,17 +628,6 @@ func (m *Machine) intrinsic(fn *ssa.Function, args []Value) (Value, bool) {
 	// ---- stubs ----
 	case full == "errors.New" || full == "fmt.Errorf":
 		return IfaceV{typ: types.Universe.Lookup("error").Type(), v: OpaqueV{"error"}}, true
-	case full == "(*math/big.Int).Bytes":
-		p := args[0].(Ptr)
-		key := p.obj.name
-		if b, ok := m.oracle[key]; ok {
-			arr := ArrayV{}
-			for _, x := range b {
-				arr.elems = append(arr.elems, m.constInt(big.NewInt(int64(x)), types.Typ[types.Uint8]))
-			}
-			return SliceV{arr: m.newObj(arr, "oracle"), len: len(b), cap: len(b)}, true
-		}
-		panic("no oracle for big.Int.Bytes on " + key)
 	case full == "crypto/subtle.ConstantTimeCompare":
 		a, b := args[0].(SliceV), args[1].(SliceV)
 		if a.len != b.len {
